@@ -483,19 +483,22 @@ def cond_values(e, ob, c, honest_c, timeout, extra_info):
     elif c in e.srange and e.srange[c][0] >= -1 and e.srange[c][1] <= 0:
         cand = [P - 1]
     else:
-        r = _solve(e, ob, [f"(assert (not (or (= {c} 0) (= {c} 1) (= {c} {P - 1}))))"], timeout)
-        if r.status != "unsat":
-            raise ChainFail(f"the condition cell {c} of a conditional foreign-field gate is not confined to {{0, 1, -1}} by the system: {r.status}")
+        e.fecc_ob = ob
+        if prove_cuts(e, [(f"domain of condition cell {c}", f"(or (= {c} 0) (= {c} 1) (= {c} {P - 1}))")], timeout=timeout):
+            raise ChainFail(f"the condition cell {c} of a conditional foreign-field gate is not confined to {{0, 1, -1}} by the system")
         cand = [1, P - 1]
     cls = next((cl for cl, nm in e.vars.items() if nm == c), None)
     for v in cand:
         if honest_c == v:
             vals[v] = True
             continue
-        r = _solve(e, ob, [f"(assert (= {c} {v}))"], 10 if len(cand) > 1 else 5)
+        ff_ = f"(not (= {c} {v}))"
+        r = solvers.solve(sliced_text(e, ff_, 8) + f"(assert (= {c} {v}))\n", timeout=10 if len(cand) > 1 else 5)
+        ob.queries += 1
+        ob.solver_s += r.time_s
         if r.status == "unsat":
             continue
-        vals[v] = r.status == "sat"
+        vals[v] = False     # a model of a slice is no witness; reachability comes from honest runs below
         if not vals[v]:
             for h in _alt_honest(e, extra_info):
                 if h.get(cls) == v:
@@ -742,6 +745,7 @@ def run_chain_ecc(e, ob, extra_info, timeout=60):
             f = e.modeq(terms, const, as_bool=True)
             e.lines.append(f"(assert (=> (= {c} {v}) {f}))")
     e.constraint = constraint
+    e.fecc_chain_ok = True
     if os.environ.get("FECC_DEBUG"):
         for r_ in records:
             if r_[0] in ("G", "L", "H") or (isinstance(r_[3], float) and r_[3] > 2):
@@ -902,19 +906,133 @@ def discover_bit(e, ob, vec, zl, zeq, sem, hon_of, extra_info, timeout):
         first = [t for t, mo in e.monos_of.items() if tuple(sorted(mo)) == mk and t in cells
                  and all(h.get(t) == w for h, w in zip(runs, want))]
     ob_ = getattr(e, "fecc_ob", None)
-    for b in first + [c_ for c_ in cands if c_ not in first][:6]:
-        f = f"(= (= {b} 1) {zeq})"
-        r = solvers.solve(sliced_text(e, f, 12) + f"(assert (not {f}))\n", timeout=max(5, timeout // 10))
-        if ob_ is not None:
-            ob_.queries += 1
-            ob_.solver_s += r.time_s
-        if os.environ.get("FECC_DEBUG"):
-            print(f"   fecc zero-test bit candidate {b}: {r.status} {r.time_s:.1f}s", flush=True)
-        if r.status == "unsat":
-            e.lines.append(f"(assert {f})")
-            e.lines.append(f"(assert (= (= {b} 1) {sem}))")
-            return b
+    for b in (first or cands[:4]):
+        f = f"(and (or (= {b} 0) (= {b} 1)) (= (= {b} 1) {zeq}))"
+        for depth, tmo in ((5, 5), (9, max(5, timeout // 6)), (16, max(5, timeout // 3))) if first else ((9, 5),):
+            r = solvers.solve(sliced_text(e, f, depth) + f"(assert (not {f}))\n", timeout=tmo)
+            if ob_ is not None:
+                ob_.queries += 1
+                ob_.solver_s += r.time_s
+            if os.environ.get("FECC_DEBUG"):
+                print(f"   fecc zero-test bit candidate {b} [depth {depth}]: {r.status} {r.time_s:.1f}s", flush=True)
+            if r.status == "unsat":
+                e.lines.append(f"(assert {f})")
+                e.lines.append(f"(assert (= (= {b} 1) {sem}))")
+                e.set_bound(b, 2)
+                return b
     return None
+
+
+def search_forged(e, f, label="", timeout=40):
+    """Counterexample search for a part `f` of the specification the solver did not prove: every cell is
+    pinned to its value in the honest run except the exposed OUTPUT cells mentioned by `f` and the cells that
+    share an ordinary gate row or a lookup with them (their range-check digits, gadget intermediates; two
+    steps). Cells of foreign-field gate groups stay pinned, so an output a gate group constrains cannot move.
+    Products with one pinned operand are stated exactly. A model is re-checked with exact arithmetic on the
+    real constraints and replayed on the real MockProver; only an ACCEPTED forged assignment whose instance
+    violates `f` (ground solver query) is returned: dict(overrides, instance) or None."""
+    from . import cengine
+    S = e.s
+    d = S.d
+    P = e.P
+    ob = getattr(e, "fecc_ob", None)
+    honest = S.honest_assign()
+    names = {cl: nm for cl, nm in e.vars.items()}
+    hon = e.exact_atoms({nm: honest.get(cl, 0) for cl, nm in names.items()})
+    outs = [e.v(c) for c in S.outs]
+    ins_ = set(a for a in (e.v(c) for c in S.ins) if not isinstance(a, int))
+    fs = _syms(f)
+    F0 = set(a for a in outs if not isinstance(a, int) and a in fs) or set(a for a in outs if not isinstance(a, int))
+    skipped = set(id(g) for g in e.skipped)
+    rows = []
+    for g in d["gates"]:
+        if id(g) in skipped or (e.skip_gate is not None and e.skip_gate(g)):
+            continue
+        rows.append(set(a for _, cells in g["poly"] for a in (e.v(c) for c in cells) if not isinstance(a, int)))
+    for lk in d["lookups"]:
+        for inp in lk["inputs"]:
+            rows.append(set(a for poly in inp["exprs"] for _, cells in poly for a in (e.v(c) for c in cells) if not isinstance(a, int)))
+    F = set(F0)
+    for _ in range(2):
+        add = set()
+        for r_ in rows:
+            if r_ & F:
+                add |= r_
+        F |= add - ins_
+    # pins: class atoms outside F, derived atoms all of whose operands are pinned
+    pinned = {nm: hon[nm] for nm in names.values() if nm not in F and nm in hon}
+    exact = []
+    nq = [0]
+
+    def fq():
+        nq[0] += 1
+        return f"fq{len(e.lines)}_{nq[0]}"
+    decl = []
+    for it in e.order:
+        kind, t = it[0], it[1]
+        if kind == "mul":
+            ops = [it[2], it[3]]
+        elif kind == "mm":
+            ops = [it[2], it[3]]
+        elif kind == "mod" or kind == "res":
+            ops = [a for _, a in it[2]]
+        elif kind == "addm":
+            ops = [it[2], it[3]]
+        else:
+            ops = []
+        free_ops = [a for a in ops if not isinstance(a, int) and a not in pinned]
+        if not free_ops:
+            if t in hon:
+                pinned[t] = hon[t]
+            continue
+        if kind in ("mul", "mm") and len(free_ops) == 1 and ops[0] != ops[1]:
+            other = ops[0] if ops[1] == free_ops[0] else ops[1]
+            v = other if isinstance(other, int) else pinned[other]
+            mod_ = P if kind == "mul" else it[4]
+            q = fq()
+            decl.append(f"(declare-const {q} Int)")
+            exact.append(f"(assert (= (* {I(v)} {free_ops[0]}) (+ {t} (* {mod_} {q}))))")
+    pins = [f"(assert (= {n_} {I(v_)}))" for n_, v_ in pinned.items()]
+    raw = list(getattr(e, "raw_ff_lines", []))
+    atoms = sorted(F)
+    r = solvers.solve(e.text(decl + raw + pins + exact + [f"(assert (not {f}))"]), timeout=timeout, get_values=atoms)
+    if ob is not None:
+        ob.queries += 1
+        ob.solver_s += r.time_s
+    if os.environ.get("FECC_DEBUG"):
+        print(f"   fecc forged-assignment search for '{label}': {len(F)} free cells, {r.status} {r.solver} {r.time_s:.1f}s", flush=True)
+    if r.status != "sat":
+        return None
+    assign = {nm: (r.model[nm] % P if nm in F and nm in r.model else hon[nm]) for nm in names.values()}
+    assign = e.repair_model(assign)
+    cls_assign = {cl: assign[nm] for cl, nm in names.items()}
+    for c in S.used_classes():
+        cls_assign.setdefault(c, honest.get(c, 0))
+    bad = S.check_exact(cls_assign)
+    if bad:
+        if os.environ.get("FECC_DEBUG"):
+            print(f"   fecc forged-assignment search: model violates real constraints {bad[:2]}", flush=True)
+        return None
+    ex = e.exact_atoms(assign)
+    r2 = solvers.solve(e.text([f"(assert (= {n_} {I(v_)}))" for n_, v_ in ex.items()] + [f"(assert {f})"]), timeout=timeout)
+    if r2.status != "unsat":
+        return None
+    ov = {}
+    for cell in set(S.honest) | set(S.uf.p):
+        if cell[0] in "ai":
+            cl = S.cls(cell)
+            if cl in names and assign[names[cl]] != hon[names[cl]]:
+                ov[cell] = hex(assign[names[cl]] % P)
+    xi = e.extra
+    k = max(1, int(d["n"]).bit_length() - 1)
+    ins = [int(x, 16) for x in xi.get("ins", [])]
+    res_, err = cengine.replay("fecc", xi["op"], dict(xi.get("params") or {}), ins, k, ov)
+    if os.environ.get("FECC_DEBUG"):
+        print(f"   fecc forged-assignment replay on the real MockProver: {res_} {err[:200] if err else ''}", flush=True)
+    if not (res_ and res_.get("accepted")):
+        return None
+    iv = {c: hex(cls_assign.get(S.cls(c), S.const.get(S.cls(c), 0))) for c in S.ins + S.outs}
+    return dict(overrides=ov, instance=iv, cx=cengine.cx_args("fecc", xi["op"], dict(xi.get("params") or {}), ins, k), part=label)
 
 
 def guard_of(e, kind, s=None, **known):
